@@ -44,8 +44,40 @@ def run_grid(scr, tier, seed, pure):
     return meta, out, res
 
 
+def prove_laws(run):
+    """Unbounded part of C17: TLAPS proves the conversion laws for every resolution, index and instant (AlgebraProofs.tla).
+    The operators proved about must be, word for word, the operators of Algebra.tla that the calls are validated against."""
+    import re
+    import shutil
+    from harness.tlc import SPEC_DIR
+
+    def defs(path):
+        out = {}
+        for line in open(path):
+            m = re.match(r"^(FloorDiv|CeilDiv|Size|PSize|TimeOf|IndexOf|InTable)\(([^)]*)\)\s*==\s*(.*?)\s*(\\\*.*)?$", line)
+            if m:
+                out[m.group(1)] = re.sub(r"\s+", " ", m.group(3)).strip()
+        return out
+    a, b = defs(os.path.join(SPEC_DIR, "Algebra.tla")), defs(os.path.join(SPEC_DIR, "AlgebraProofs.tla"))
+    if len(b) != 7 or any(a.get(k) != v for k, v in b.items()):
+        raise MachineryError("AlgebraProofs.tla no longer proves about the operators of Algebra.tla: %s vs %s" % (a, b))
+    wd = tempfile.mkdtemp(prefix="sptlaps_")
+    try:
+        shutil.copy(os.path.join(SPEC_DIR, "AlgebraProofs.tla"), wd)
+        r = subprocess.run(["timeout", "600", "tlapm", "--cleanfp", "AlgebraProofs.tla"], cwd=wd, stdout=subprocess.PIPE, stderr=subprocess.STDOUT, text=True)
+    finally:
+        shutil.rmtree(wd, ignore_errors=True)
+    m = re.search(r"All (\d+) obligations proved", r.stdout)
+    if not m:
+        raise MachineryError("TLAPS no longer proves the conversion laws (a defect of the specification, not a verdict about the code):\n" + r.stdout[-1500:])
+    run.notes["tlaps"] = {"module": "AlgebraProofs.tla", "obligations_proved": int(m.group(1)),
+                          "theorems": ["RoundTrip", "Monotone", "FloorLaw", "Covers"], "for": "every resolution g > 0, every index, every instant (unbounded)"}
+
+
 def check_c17(prop, tier, replay=None):
     run = Run("C17", tier)
+    if not replay:
+        prove_laws(run)
     run.cov["rule"] = ("every index of bounded windows x resolutions {1,5,15,30,60 min} x start offsets for idxToDate/dateToIdx/size "
                        "(Scoreboard and Project, compiled and pure), every Boolean pattern up to 7 (quick) / 9 (thorough) slots x every window x "
                        "min length 1..3 for collectIntervals; non-trivial = distinct call (op, arguments); the laws themselves are ASSUMEd in Algebra.tla")
